@@ -7,6 +7,8 @@ var propBuilders = map[string]func(c *CheckCtx){}
 func init() {
 	propBuilders["C18"] = buildC18
 	propBuilders["C09"] = buildC09
+	propBuilders["C13"] = buildC13
+	propBuilders["C11"] = buildC11
 	registerHarness("C09", "pkg/parser", "c09_parser_test.go", "TestVCReplayC09")
 	registerHarness("C18", "pkg/token", "c18_token_test.go", "TestVCReplayC18")
 	registerHarness("C18", "pkg/position", "c18_position_test.go", "TestVCReplayC18")
@@ -45,5 +47,23 @@ func buildC09(c *CheckCtx) {
 	c.addFunctionUnits(func(con *Contract) bool { return hasProp(con, "C09") })
 	c.addInit("pkg/version", "pkg/parser")
 	c.addLemmas("pkg/version")
+	c.addFrames("C09")
 	c.assume("strings.SplitN / strconv.ParseUint: assumed stdlib contracts (pure, fresh results); the numeric value of a version string is not re-derived")
+}
+
+func buildC13(c *CheckCtx) {
+	c.Technique = "frame conditions (modifies clauses) per observer family, decided by an ownership/freshness dataflow over go/ssa of the whole call tree"
+	c.addFrames("C13")
+	c.forbiddenImports([]string{"unsafe", "reflect"})
+	c.assume("a visitor of unknown dynamic type handed to the traverser is the caller's code (C13 speaks of a passive visitor)")
+	c.assume("io.Writer.Write does not retain or modify the slice it is given")
+	c.assume("determinism of each observer as a function of (tree, own fresh state) is argued in DESIGN §5 C13, not mechanised")
+}
+
+func buildC11(c *CheckCtx) {
+	c.Technique = "confinement lemma: frame conditions over go/ssa (no write to package-level state or to memory reachable from it, all mutable state allocated inside the call, no concurrency or nondeterminism constructs)"
+	c.addFrames("C11")
+	c.forbiddenImports([]string{"unsafe", "reflect", "sync", "sync/atomic", "time", "math/rand", "os"})
+	c.assume("Go memory model: goroutines that share no written location do not race; no schedule is explored (DESIGN §5 C11)")
+	c.assume("cmd/php-parser (the CLI) is outside the library; its workers share only channels and read-only flags (read, not verified)")
 }
